@@ -178,9 +178,20 @@ func (p Prob) Build() (*solver.Problem, error) {
 			}
 		}
 		pb = solver.ParseCardConstrs(cs)
-	case "pb":
+	case "pb", "pb2":
+		// front "pb2": the caller keeps its constraint values: equal constraints of the list are the SAME PBConstr
+		// value (slices shared), and the list is parsed twice, the second result being the one used
 		var cs []solver.PBConstr
+		made := map[string][]solver.PBConstr{}
 		for _, c := range p.Cs {
+			key := fmt.Sprint(c)
+			if p.Front == "pb2" {
+				if old, ok := made[key]; ok {
+					cs = append(cs, old...)
+					continue
+				}
+			}
+			before := len(cs)
 			switch c.T {
 			case "prop", "cl":
 				cs = append(cs, solver.PropClause(cp(c.L)...))
@@ -197,6 +208,10 @@ func (p Prob) Build() (*solver.Problem, error) {
 			default:
 				panic("constraint " + c.T + " not expressible in the PB front end")
 			}
+			made[key] = cs[before:len(cs):len(cs)]
+		}
+		if p.Front == "pb2" {
+			solver.ParsePBConstrs(cs)
 		}
 		pb = solver.ParsePBConstrs(cs)
 	case "opb":
